@@ -16,6 +16,11 @@ OUTSIDE = {
     "C05-4": "the ambiguous table name 'Block' (shared by five device type codes) resolves to another of its codes; the standard assigns no code to that name, so no generated dictionary uses it (unique descriptions are generated and checked)",
     "C14-4": "thread race on a shared stand-in object: outside C14's quantifier (configurations, inputs); it is a C09 violation and C09 catches it",
     "C01-3": "thread race on a shared stand-in object: outside C01's quantifier (inputs, configurations); it is a C09 violation and C09 catches it",
+    # observed at another property's observation point (that check catches them; the seed's own check looks elsewhere by design)
+    "C02-11": "the Inquiry *constructor* replaces the caller's allocation length before the encoder is reached: C02's oracle is 'decode returns what build_cdb was given', which still holds; arguments -> CDB is C01's statement, and C01 catches it (every value of every <=8-bit field with defaults)",
+    "C06-11": "stale result after re-executing one command *object* (SCSICommand.unmarshall, the instance path): C06 is stated over the build/parse functions; 'the result is the decode of what the device left' is C13's statement, and C13 catches it",
+    "C07-10": "only the *text* of the condition quotes a folded ASC/ASCQ; status handling, exception and .asc/.ascq are right: the text is C08's statement, and C08 catches it",
+    "C09-11": "copy.deepcopy(command) shares the decoded result: no other command is created or used, the CDBs and buffers C09 speaks of stay independent; the returned command and its result are C13's observation point, and C13 catches it",
 }
 
 
@@ -83,13 +88,13 @@ def main():
     n_own = n_out = 0
     for name, own, title, needs, own_rc, caught, keys, outside, ntested, inconc in rows:
         others = [p for p in caught if p != own]
-        verdict = "caught" if own_rc == 1 else ("outside quantifier" if outside else "MISSED")
+        verdict = "caught" if own_rc == 1 else ("outside (see below)" if outside else "MISSED")
         n_own += own_rc == 1
         n_out += outside and own_rc != 1
         print("| %s | %s | %s | %s | %s | %s |" % (name, clean(title, 110), clean(needs, 170), verdict, ", ".join(others) or ("-" if ntested > 1 else "(not run)"),
                                                     "; ".join(k.split(":", 1)[1] if ":" in k else k for k in keys)))
     print()
-    print("%d seeded changes; %d caught by the check of the property they were written against; %d judged outside that property's quantifier (reasons below); %d missed."
+    print("%d seeded changes; %d caught by the check of the property they were written against; %d judged outside that property's quantifier or statement (reasons below; where another property owns the behaviour, its check catches the change); %d missed."
           % (len(rows), n_own, n_out, len(rows) - n_own - n_out))
     for k, v in OUTSIDE.items():
         print("* %s: %s" % (k, v))
